@@ -32,11 +32,12 @@ def requests():
         Request(IF, fn=["stir::write_basic_interfile_image_header", "stir::write_interfile_.*", "stir::interfile_create_filenames", "stir::read_interfile_.*image.*", "stir::create_image_and_header_from"], files=["/repo/src/IO/interfile.cxx"]),
         Request(IH, fn=["stir::InterfileHeader::.*", "stir::MinimalInterfileHeader::.*", "stir::InterfileImageHeader::.*"], files=["/repo/src/IO/InterfileHeader.cxx"]),
         Request(KW, fn=["stir::standardise_interfile_keyword"]),
-        Request(IF, fn=["stir::read_data", "stir::write_data", "stir::detail::read_data_1d", "stir::find_scale_factor"], enum=["stir::NumericType::Type"], files=["/repo/src/include/stir/IO/.*", "/repo/src/include/stir/convert_range.inl"]),
+        Request(IF, fn=["stir::read_data", "stir::write_data", "stir::detail::read_data_1d", "stir::find_scale_factor", "stir::convert_range"], enum=["stir::NumericType::Type"], files=["/repo/src/include/stir/IO/.*", "/repo/src/include/stir/convert_range.inl"]),
         Request(IF, fn=["stir::(PatientPosition|ImagingModality|TimeFrameDefinitions|ExamInfo|Radionuclide)::.*"], files=["/repo/src/include/stir/.*"]),
         Request("src/buildblock/PatientPosition.cxx", fn=["stir::PatientPosition::.*"]),
         Request("src/buildblock/ExamInfo.cxx", fn=["stir::ExamInfo::.*"]),
         Request(IF, fn=["stir::write_basic_interfile_.*header", "stir::write_interfile_.*"], files=["/repo/src/IO/interfile.cxx"]),
+        Request(IF, fn=["stir::write_basic_interfile"], files=["/repo/src/IO/interfile.cxx"]),
     ]
 
 
@@ -1042,6 +1043,10 @@ FULL_PRECISION_KEYS = {
     "calibration factor": "multiplies the image; stored by the format as exam information",
     "image duration (sec)": "double: 6 digits lose fractions of a second of a frame late in the study",
     "image relative start time (sec)": "double: idem",
+    "energy window lower level": "exam information stored by the format: 425.1234 keV came back as 425.123 (F90)",
+    "energy window upper level": "idem",
+    "radionuclide halflife (sec)": "exam information (a radionuclide that is not in the database is rebuilt from the header): 1223.4567 s came back as 1223.46 (F90)",
+    "radionuclide branching factor": "idem",
 }
 
 
@@ -1108,6 +1113,280 @@ def rule_k_full_precision(ctx, wfns, rule="C10.k-quantities-written-with-full-pr
     return n
 
 
+def rule_l_quantification_units_only_for_identical_factors(ctx, wfns):
+    """`quantification units` is written next to the per-data-set `image scaling factor[i]`; the reader accepts it only if EVERY image
+    scaling factor is exactly that number (InterfileHeader::post_processing).  The writer's decision to emit it must therefore rest on
+    exact (in)equality of the scale factors - a tolerance lets it write a header that the reader rejects: a dynamic image with almost
+    equal frame maxima cannot be read back (seed C10-6)."""
+    RULE = "C10.l-quantification-units-only-for-identical-scale-factors"
+    n = 0
+    for f in wfns:
+        if f.body is None or f.short != "write_basic_interfile_image_header":
+            continue
+        ems = [e for e in _emissions(f) if e[0] == "quantification units"]
+        if not ems:
+            continue
+        from engine.algebra import LocalDefs, data_slice
+
+        defs = LocalDefs(f)
+        for e in ems:
+            top = e[3]
+            guards = [a.c[0] for a in top.ancestors() if a.k == "IfStmt" and a.c]
+            gvars = {m.get("d") for g in guards for m in g.walk() if m.k == "DeclRefExpr" and m.get("dk") == "local"}
+            # every condition under which a guard variable is assigned
+            conds = []
+            for d in gvars:
+                for w in defs.writes.get("v%d" % d, []):
+                    conds += [a.c[0] for a in w.ancestors() if a.k == "IfStmt" and a.c]
+            rel = [m for c in conds for m in c.walk() if (m.k == "BinaryOperator" and m.op in ("<", "<=", ">", ">=")) or (m.is_call() and (m.callee or "").split("::")[-1] in ("abs", "fabs"))]
+            def element(m):
+                """does the expression read a scale factor (an element of the vector, or a local holding one)?"""
+                for x in m.walk():
+                    if (x.k in ("ArraySubscriptExpr",) or (x.is_call() and (x.callee or "").split("::")[-1] in ("operator[]", "at"))) and "scaling_factors" in key(x, True):
+                        return True
+                    if x.k == "DeclRefExpr" and x.get("dk") == "local":
+                        for ini in defs.all_defs(x.get("d")):
+                          if any((y.k == "ArraySubscriptExpr" or (y.is_call() and (y.callee or "").split("::")[-1] in ("operator[]", "at"))) and "scaling_factors" in key(y, True) for y in ini.walk()):
+                              return True
+                return False
+
+            rel = [m for m in rel if element(m)]
+            exact = [m for c in conds for m in c.walk() if m.k == "BinaryOperator" and m.op in ("!=", "==") and element(m)]
+            if not exact and not rel:
+                ctx.unrec(f.qn, "C10.l: how the scale factors are compared before `quantification units` is written was not recognised")
+                continue
+            ok = not rel
+            ctx.ob(RULE, f.qn, "key:quantification units", ok, e[2].where(), "written only when the scale factors are compared equal exactly" if ok else "`quantification units` is written when the scale factors agree within a tolerance (%s); the reader rejects the header unless every `image scaling factor` equals it exactly: the image the library just wrote cannot be read back" % rel[0].where())
+            n += 1
+    return n
+
+
+_TRANSPARENT = ("ExprWithCleanups", "ImplicitCastExpr", "ParenExpr", "MaterializeTemporaryExpr", "CXXBindTemporaryExpr", "CXXFunctionalCastExpr", "CXXConstructExpr")
+
+
+def _value_discarded(c):
+    """is the value of expression c thrown away (an expression statement, or cast to void)?"""
+    x, p = c, c.parent
+    while p is not None and p.k in _TRANSPARENT:
+        x, p = p, p.parent
+    if p is None:
+        return False
+    if p.k in ("CStyleCastExpr", "CXXStaticCastExpr") and "void" == (p.type or "").strip():
+        return True
+    if p.k == "CompoundStmt":
+        return True
+    if p.k in ("ForStmt", "WhileStmt", "DoStmt", "CXXForRangeStmt"):
+        return p.c and p.c[-1] is x or (p.k == "ForStmt" and x is not None and any(x is y for y in p.c[:1] + p.c[2:]))
+    if p.k == "IfStmt":
+        return any(x is y for y in p.c[1:])
+    return False
+
+
+def rule_n_write_failure_reported(ctx, wfns):
+    """`writing an image and reading it back preserves ...`: the writer that returns Succeeded::yes has written the data.  Every
+    write_data() call of the image writers has its result used (tested / returned / stored) - a dropped result lets the function write
+    the header for an empty or partial data file and report success (F89)."""
+    RULE = "C10.n-write-failure-reported"
+    n = 0
+    seen = set()
+    for f in wfns:
+        if f.body is None or f.short != "write_basic_interfile":
+            continue
+        calls = [c for c in f.walk() if c.is_call() and ((c.callee or "") == "stir::write_data" or key(c, True).split("(")[0] == "write_data")]
+        for c in calls:
+            w = c.where()
+            if w in seen:
+                continue
+            seen.add(w)
+            bad = _value_discarded(c)
+            ctx.ob(RULE, f.qn + "(" + f.sig[:40] + ")", "write_data@%s" % w.rsplit(":", 1)[-1], not bad, w, "the result of write_data is used" if not bad else "the result of write_data is thrown away: when the data cannot be written (refused scale factor, full disk) the header is written all the same and the function returns Succeeded::yes for a file that cannot be read back")
+            n += 1
+    return n
+
+
+def _sign_of(n, env, unknown):
+    """tiny sign domain for find_scale_factor: 'nonneg' | 'any' ; nodes that are not modelled are collected in `unknown`"""
+    n = n.strip()
+    if n.k in ("FloatingLiteral", "IntegerLiteral"):
+        return "nonneg" if (n.get("v", 0) or 0) >= 0 else "any"
+    if n.k == "DeclRefExpr":
+        return env.get(n.get("d"), "any")
+    if n.k in ("CXXFunctionalCastExpr", "CStyleCastExpr", "CXXStaticCastExpr", "ImplicitCastExpr", "ParenExpr", "MaterializeTemporaryExpr", "CXXConstructExpr", "ExprWithCleanups") and n.c:
+        return _sign_of(n.c[-1], env, unknown)
+    if n.is_call():
+        cal = (n.callee or key(n, True).split("(")[0]).split("::")[-1]
+        args = n.call_args()
+        if cal == "max" and len(args) == 2:
+            return "nonneg" if "nonneg" in (_sign_of(args[0], env, unknown), _sign_of(args[1], env, unknown)) else "any"
+        if cal == "min" and len(args) == 2:
+            return "nonneg" if {_sign_of(args[0], env, unknown), _sign_of(args[1], env, unknown)} == {"nonneg"} else "any"
+        if cal in ("abs", "fabs"):
+            return "nonneg"
+        if cal in ("max_value", "max_element", "min_element", "min_value", "operator*"):
+            return "any"
+        unknown.append(n)
+        return "any"
+    if n.k == "BinaryOperator" and n.op in ("*", "/", "+"):
+        a, b = _sign_of(n.c[0], env, unknown), _sign_of(n.c[1], env, unknown)
+        return "nonneg" if a == b == "nonneg" else "any"
+    if n.k == "UnaryOperator" and n.op == "*":
+        return "any"
+    if n.k == "ConditionalOperator":
+        a, b = _sign_of(n.c[1], env, unknown), _sign_of(n.c[2], env, unknown)
+        return "nonneg" if a == b == "nonneg" else "any"
+    unknown.append(n)
+    return "any"
+
+
+def _sign_walk(stmt, env, stores, target, unknown):
+    """abstract execution of structured statements; `stores` collects (node, sign) for every assignment to `target` (the in/out scale factor).
+    returns False when the statement always returns"""
+    k = stmt.k
+    if k == "CompoundStmt":
+        for c in stmt.c:
+            if not _sign_walk(c, env, stores, target, unknown):
+                return False
+        return True
+    if k == "DeclStmt":
+        for v in stmt.c:
+            if v.k == "VarDecl":
+                arithmetic = re.search(r"\b(float|double|int|long|short|unsigned|scaleT)\b", v.get("t") or "") is not None
+                env[v.get("d")] = _sign_of(v.c[0], env, unknown) if v.c and arithmetic else "any"
+        return True
+    if k == "ReturnStmt":
+        return False
+    if k == "IfStmt":
+        cond = stmt.c[0].strip()
+        e1, e2 = dict(env), dict(env)
+        # refinement: `v < 0` / `v <= 0`-> else-branch nonneg ; `v >= 0` / `v > 0` -> then-branch nonneg
+        if cond.k == "BinaryOperator" and cond.op in ("<", "<=", ">", ">=") and cond.c[0].strip().k == "DeclRefExpr" and cond.c[1].strip().k in ("IntegerLiteral", "FloatingLiteral") and (cond.c[1].strip().get("v", 0) or 0) == 0:
+            d = cond.c[0].strip().get("d")
+            (e2 if cond.op in ("<",) else e1 if cond.op in (">", ">=") else {})[d] = "nonneg"
+        l1 = _sign_walk(stmt.c[1], e1, stores, target, unknown)
+        l2 = _sign_walk(stmt.c[2], e2, stores, target, unknown) if len(stmt.c) > 2 else True
+        live = [e for e, l in ((e1, l1), (e2, l2)) if l]
+        if not live:
+            return False
+        for d in set().union(*[set(e) for e in live]):
+            env[d] = "nonneg" if all(e.get(d, "any") == "nonneg" for e in live) else "any"
+        return True
+    n = stmt.strip()
+    if n.k in ("BinaryOperator", "CompoundAssignOperator", "CXXOperatorCallExpr") and n.op in ("=", "*=", "/=", "+="):
+        lhs = n.c[0].strip() if n.k != "CXXOperatorCallExpr" else n.c[-2].strip()
+        rhs = n.c[-1]
+        sg = _sign_of(rhs, env, unknown)
+        if n.op != "=":
+            sg = "nonneg" if sg == "nonneg" and (env.get(lhs.get("d"), "any") == "nonneg") else "any"
+        if lhs.k == "DeclRefExpr":
+            env[lhs.get("d")] = sg
+            if lhs.get("d") == target:
+                stores.append((n, sg))
+        else:
+            unknown.append(n)
+        return True
+    if n.k in ("NullStmt",):
+        return True
+    unknown.append(n)
+    return True
+
+
+def rule_e2_scale_factor_sign_and_floating_output(ctx, iofns):
+    """(F88) the factor find_scale_factor stores is never negative: data without positive values going to an unsigned type gave
+    max/max_value < 0, every row was then refused by the fixed-scale writer and no data were written;
+    (F86) for a floating-point output type the factor is not the quotient with the type's maximum: it underflows the float factor to 0
+    (float -> double), which the converter reads as `all data are zero`."""
+    RULE = "C10.e-scale-factor-no-overflow"
+    fs = [f for f in iofns if f.short == "find_scale_factor" and f.body is not None and len(f.params) == 4]
+    if not fs:
+        ctx.fail_broken("anchor find_scale_factor(scale, begin, end, info) not found")
+        return
+    f = ([x for x in fs if not x.is_dependent] or fs)[0]
+    target = f.params[0]["d"]
+    env, stores, unknown = {target: "nonneg"}, [], []
+    _sign_walk(f.body, env, stores, target, unknown)
+    if not stores:
+        ctx.fail_broken("no store to the scale factor found in find_scale_factor")
+        return
+    bad = [s for s, sg in stores if sg != "nonneg"]
+    if bad and unknown:
+        ctx.unrec(f.qn, "C10.e: sign of the stored scale factor not decidable: %s is not modelled" % unknown[0].where())
+    else:
+        ok = not bad
+        ctx.ob(RULE, f.qn, "stored-factor-not-negative", ok, (bad[0] if bad else stores[0][0]).where(), "every value stored in the scale factor is a quotient clamped at 0 / a maximum with a non-negative value (%d stores)" % len(stores) if ok else "the stored factor can be negative (data maximum below 0 divided by the positive limit of an unsigned output type): the fixed-scale writer refuses every row, no data are written and the header is: the image cannot be read back")
+    # floating point output
+    ifs = [m for m in f.walk() if m.k == "IfStmt" and any(("integer_type" in key(x, True).split("(")[0] or "is_integer" in key(x, True)) for x in m.c[0].walk())]
+    if not ifs:
+        ctx.ob(RULE, f.qn, "floating-output-not-full-range", False, f.where(), "the factor is max/max_value of the output type also when that type is float or double: for float data written as double the quotient underflows the float factor to 0, the converter takes that for `all data are zero` and the image is written as zeros")
+        return
+    m = ifs[0]
+    cond = key(m.c[0], True)
+    neg = cond.lstrip("(").startswith("!")
+    branch = m.c[1] if neg else (m.c[2] if len(m.c) > 2 else None)
+    if branch is None:
+        ctx.unrec(f.qn, "C10.e: the branch for floating-point output was not recognised (%s)" % m.where())
+        return
+    st = [x for x in branch.walk() if x.k in ("BinaryOperator", "CXXOperatorCallExpr") and x.op == "=" and x.c[0].strip().k == "DeclRefExpr" and x.c[0].strip().get("d") == target]
+    one = [x for x in st if any(y.k in ("FloatingLiteral", "IntegerLiteral") and (y.get("v", 0) or 0) == 1 for y in x.c[-1].walk())]
+    returns = any(x.k == "ReturnStmt" for x in branch.walk())
+    if not st:
+        ctx.unrec(f.qn, "C10.e: the floating-point branch does not store the factor (%s)" % m.where())
+        return
+    ok = bool(one) and returns
+    ctx.ob(RULE, f.qn, "floating-output-not-full-range", ok, m.where(), "floating-point output: the automatic factor is 1 (larger only against overflow) and the full-range quotient is not reached" if ok else "floating-point output still reaches the full-range quotient (no factor 1 / no return in the floating-point branch)")
+
+
+def rule_m_rounded_in_output_type(ctx, iofns):
+    """`scaled integer output ... never overflows the chosen type`: the factor is chosen for the full range of the OUTPUT type, so the
+    quotient value/factor reaches that type's limits; it has to be rounded into that type.  A rounding function with a fixed result
+    type (stir::round returns int) overflows for the 4-byte unsigned and the 8-byte types (F87)."""
+    RULE = "C10.m-rounded-into-output-type"
+    fs = [f for f in iofns if f.short == "convert_range" and f.body is not None and len(f.params) == 4 and len({p["t"] for p in f.params if "Iter" in p["t"]}) >= 2]
+    if not fs:
+        ctx.fail_broken("anchor convert_range(out_begin, scale, in_begin, in_end) not found")
+        return
+    # an instantiation: there the rounding function is resolved and has its result type
+    inst = [f for f in fs if not f.is_dependent]
+    if not inst:
+        ctx.unrec(fs[0].qn, "C10.m: no instantiation of convert_range in the analysed unit")
+        return
+    f = inst[0]
+    quot = [m for m in f.walk() if m.k == "BinaryOperator" and m.op == "/" and any(x.k == "DeclRefExpr" and x.get("d") == f.params[1]["d"] for x in m.c[1].walk())]
+    n = 0
+    # the quotient may reach the rounding through a local
+    defs = LocalDefs(f)
+    flows = []
+    for q in quot:
+        holder = next((a for a in q.ancestors() if a.k == "VarDecl"), None)
+        if holder is not None and defs.single_def(holder.get("d")) is not None:
+            flows += [(u, q) for u in f.walk() if u.k == "DeclRefExpr" and u.get("d") == holder.get("d")]
+        else:
+            flows.append((q, q))
+    for q0, q in flows:
+        fixed = None
+        via_round_to = False
+        for a in q0.ancestors():
+            if a.is_call():
+                cal = (a.callee or key(a, True).split("(")[0]).split("::")[-1]
+                t = (a.type or "")
+                if cal == "round_to":
+                    via_round_to = True
+                    break
+                if cal in ("round", "lround", "lrint", "llround", "llrint", "rint_to_int") and re.fullmatch(r"(int|long|long long|short)", t.strip()):
+                    fixed = (cal, t.strip(), a)
+                    break
+            if a.k in ("CompoundStmt", "IfStmt", "ForStmt"):
+                break
+        inner = [a for a in q.ancestors() if a.k == "IfStmt"]
+        # only the quotient on the integer branch is of interest: the one under `is_integer` else-branch / with rounding
+        if not via_round_to and fixed is None and not any(a.is_call() and "round" in (a.callee or key(a, True)) for a in q0.ancestors()):
+            continue
+        ok = fixed is None
+        ctx.ob(RULE, f.qn, "quotient@%d" % q.line, ok, q.where(), "value/factor is rounded by a function whose result has the output type" if ok else "value/factor is rounded by %s(), which returns `%s`: with the automatic factor the quotient reaches the limits of the output type, beyond that type for UINT, LONG and ULONG output (244 read back as 123.22)" % (fixed[0], fixed[1]))
+        n += 1
+    if n == 0:
+        ctx.unrec(f.qn, "C10.m: no rounded quotient value/scale_factor recognised in convert_range")
+
+
 def run(ctx):
     ctx.explanation = (
         "Decides: (a) every key that the Interfile image header writer (and its helpers for exam information) emits is registered or "
@@ -1158,9 +1437,17 @@ def run(ctx):
     image_keys["scaling factor (mm/pixel)"] = "voxel size: with 6 digits the position of the last voxel of a long axis moves by micrometres to millimetres"
     image_keys["first pixel offset (mm)"] = "position of the first voxel (index offset and origin)"
     rule_k_full_precision(ctx, ifns, keys=image_keys)
-    ctx.require_count("C10.k-quantities-written-with-full-precision", 11)
+    rule_l_quantification_units_only_for_identical_factors(ctx, ifns)
+    ctx.require_count("C10.l-quantification-units-only-for-identical-scale-factors", 1)
+    rule_e2_scale_factor_sign_and_floating_output(ctx, iof)
+    rule_m_rounded_in_output_type(ctx, iof)
+    ctx.require_count("C10.m-rounded-into-output-type", 1)
+    if len(us) > 8 and us[8] is not None:
+        rule_n_write_failure_reported(ctx, fl(us[8]))
+        ctx.require_count("C10.n-write-failure-reported", 3)
+    ctx.require_count("C10.k-quantities-written-with-full-precision", 15)
     ctx.require_count("C10.a-header-keys-agree", 25)
     ctx.require_count("C10.b-short-file-is-error", 2)
     ctx.require_count("C10.c-number-types-exhaustive", 3)
     ctx.require_count("C10.d-offset-origin-inverse", 3)
-    ctx.require_count("C10.e-scale-factor-no-overflow", 2)
+    ctx.require_count("C10.e-scale-factor-no-overflow", 4)
